@@ -323,6 +323,11 @@ def play(run, T, steps, opts, ti_fn, tag, stream="history", check_key=True):
                 only_f = [l for l in fresh if l not in cached]
                 if not reasons and not only_c and only_f and all(":staticFunction:" in l for l in only_f):
                     key = "builddir-misses-staticFunction"
+                # an unmatchedSuppression finding stored in a cache file that was hit carries the column of the
+                # suppression comment; comments are not tokens and the suppression dump in the key has no column
+                if not reasons and (only_c or only_f) and all(":information:unmatchedSuppression:" in l for l in only_c + only_f) \
+                        and all(l.split(":", 1)[0] in hits for l in only_c + only_f):
+                    key = "inline-suppression-column-not-in-key"
                 what = "run %d (-j%d) with the build dir differs from a run without it: only cached %s, only fresh %s" % (
                     nrun, jobs, only_c[:3], only_f[:3])
                 problems.append((key, what, {"history": log[:], "options": INC + list(opts), "files": files,
